@@ -531,9 +531,9 @@ class Table(tsdb.Relation):
         if isinstance(index, slice):
             values = list(value)
         else:
+            self._rows[index]  # check for IndexError
             if index < 0:
                 index = len(self._rows) + index
-            self._rows[index]  # check for IndexError
             values = [value]
             index = slice(index, index + 1)
         # now prepare the rows for being in a table
